@@ -31,6 +31,16 @@ POOLS = {
     'go': ['GO', 'GO 2'],
 }
 
+INNER_WS = [' ', ' ', '  ', '\n', '\t', '\r\n', ' \n ', '\n\t']
+
+
+def vary_inner_ws(s, rng):
+    """a multi-word keyword may be written with any whitespace between its words"""
+    if ' ' not in s or s[:1] in '"\'`$-/#':
+        return s
+    return ''.join(rng.choice(INNER_WS) if c == ' ' else c for c in s)
+
+
 _checked = {}
 
 
@@ -68,7 +78,7 @@ def spell(hist, rng, canonical=False):
     for h in hist:
         lab = h['lab']
         pool = pools[lab]
-        s = pool[0] if canonical else rng.choice(pool)
+        s = pool[0] if canonical else vary_inner_ws(rng.choice(pool), rng)
         gapish = lab in ('ws', 'nl', 'cmt1', 'cmtm')
         if prev is not None and not gapish and not prev['gap']:
             tight = (lab in ('semi', 'rp') or prev['lab'] == 'lp')
